@@ -49,6 +49,15 @@ def rsa_material():
     return _RSA
 
 
+# a 512-bit RSA test key (DER, PKCS#1) - too small for the larger hashes: signing with it must be refused, not crash
+SMALL_RSA_PRIV = bytes.fromhex(
+    '3082013b020100024100dc339967a03800ebbd71f19ce09a78a37898af6e0e238994be1b00187ad965ff261233519e9e6698a23b9b0fe9e6898ee80a9f6fb95049ee1d4309'
+    'df12efd3890203010001024100bcc77bd7ac32f70f236de11e862bc80b156388da88428d3bb8b33b24c185497b9a81c2d1858951f82d52177bf7b2a2bec5a0a2f85cab411f'
+    'fd229a4c909867e5022100f2171914eb6aea5174b42caf40f1d31fd081cea8d7158321c93e886cd69e0f13022100e8da8a8842e69cceecb5739252db1a914cac706a021815'
+    'd2a58e49da66407a730221009e345203c5c4dcd3d67c58273f3dc946a52fef298f4553a8a4a6e4e89b6837590220672c1de18e32fc1bbb4a12b12cc1241e6928a68e71eb16'
+    '104586ac3676c3eefd02205db7065ffeaa1c7d8489298e35c0f02f9bf537ed97c20f52ae4b4df8e315a208')
+
+
 # ---------------------------------------------------------------------------------------------- capture of the internal-error path
 def exc_detail(ev):
     """For an AttributeError the name of the missing attribute (line numbers are deliberately not part of a site)."""
@@ -78,11 +87,15 @@ def site_string(c):
 class Capture(logging.Handler):
     """Collects the WARNING 'Error occurred while processing operation.' and the traceback record that follows it."""
     def __init__(self):
-        logging.Handler.__init__(self, level=logging.WARNING)
+        logging.Handler.__init__(self, level=logging.DEBUG)
         self.warnings = 0
         self.sites = []
 
     def emit(self, record):
+        try:
+            record.getMessage()         # force the (lazy) formatting of every record, whatever its level
+        except Exception:
+            self.format_errors = getattr(self, 'format_errors', 0) + 1
         if record.levelno == logging.WARNING and record.getMessage() == 'Error occurred while processing operation.':
             self.warnings += 1
         if record.exc_info and record.exc_info[1] is not None and record.name == 'kmip.server.engine':
@@ -119,7 +132,9 @@ class Driver:
 
     def attach(self):
         lg = self.eng.engine._logger
-        lg.setLevel(logging.WARNING)
+        # DEBUG for two drivers out of three, INFO for the third: some code only runs to build a debug message
+        Driver.count = getattr(Driver, 'count', 0) + 1
+        lg.setLevel(logging.INFO if Driver.count % 3 == 0 else logging.DEBUG)
         lg.propagate = False
         for h in list(lg.handlers):
             if isinstance(h, Capture):
@@ -245,9 +260,9 @@ class Driver:
 
 
 # ---------------------------------------------------------------------------------------------- stores
-def obj_spec(otype, state='PreActive', mask='all', names=1, asi=0, groups=0, owner='alice', how='register', empty=False):
+def obj_spec(otype, state='PreActive', mask='all', names=1, asi=0, groups=0, owner='alice', how='register', empty=False, value=None):
     return {'type': otype, 'state': state, 'mask': mask, 'names': names, 'asi': asi, 'groups': groups, 'owner': owner,
-            'how': how, 'empty': empty}
+            'how': how, 'empty': empty, 'value': value}
 
 
 def _common_attrs(spec, k):
@@ -261,9 +276,15 @@ def _common_attrs(spec, k):
     return a
 
 
-def _secret(otype, empty=False):
+def _secret(otype, empty=False, value=None):
     t = OT[otype]
     rsa = rsa_material()
+    if value is not None:
+        raw = {'rsa_pub': rsa['pub'], 'rsa_priv': rsa['priv'], 'small_priv': SMALL_RSA_PRIV}[value]
+        if otype == 'SYMMETRIC_KEY':        # a "symmetric key" whose bytes are an RSA key: lets Encrypt/Decrypt reach the asymmetric paths
+            return kdrv.symmetric_key_secret(raw, ALG.AES, 8 * len(raw))
+        return kdrv.core_secret(t, cryptographic_algorithm=ALG.RSA, cryptographic_length=512 if value == 'small_priv' else 1024,
+                                key_format_type=KFT.PKCS_1, key_value=raw, key_wrapping_data=None)
     if empty:
         if otype == 'SECRET_DATA':
             return kdrv.core_secret(t, key_format_type=KFT.OPAQUE, key_value=b'', secret_data_type=enums.SecretDataType.PASSWORD)
@@ -324,7 +345,7 @@ def add_object(drv, spec, k):
         attrs = list(extra)
         if otype != 'OPAQUE_DATA' and mask:
             attrs.insert(0, kdrv.attr(AT.CRYPTOGRAPHIC_USAGE_MASK, mask))
-        item = kdrv.register(OT[otype], secret=_secret(otype, spec.get('empty')), attrs=attrs)
+        item = kdrv.register(OT[otype], secret=_secret(otype, spec.get('empty'), spec.get('value')), attrs=attrs)
     it = _setup_step(drv, spec, k, 'creating', item, user)
     p = it['payload']
     if item[0] == OP.CREATE_KEY_PAIR:
@@ -968,6 +989,94 @@ def mask_menu(uid, ver):
     return out
 
 
+def asym_menu(sym_pub, sym_priv, small_priv, priv, pub, rng):
+    """Data / cipher text / signature lengths around every capacity limit of the asymmetric paths (k = 128 bytes for the
+    1024-bit key; k-11 PKCS1v15, k-2h-2 OAEP for each hash), random and valid content."""
+    out = []
+    k = 128
+    lens = sorted({0, 1, k - 12, k - 11, k - 10, k - 1, k, k + 1, 2 * k, 500} | {k - 2 * h - 2 + d for h in (16, 20, 28, 32, 48, 64) for d in (-1, 0, 1) if k - 2 * h - 2 + d >= 0})
+    pars = [{'cryptographic_algorithm': ALG.RSA, 'padding_method': PAD.PKCS1v15}, {'cryptographic_algorithm': ALG.RSA, 'padding_method': PAD.OAEP},
+            {'cryptographic_algorithm': ALG.RSA, 'padding_method': PAD.OAEP, 'hashing_algorithm': HASH.SHA_512},
+            {'cryptographic_algorithm': ALG.RSA, 'padding_method': PAD.OAEP, 'hashing_algorithm': HASH.SHA_1},
+            {'cryptographic_algorithm': ALG.RSA, 'padding_method': PAD.PSS}, {'cryptographic_algorithm': ALG.RSA}]
+    valid = None
+    try:
+        from cryptography.hazmat.primitives.asymmetric import padding as apad
+        from cryptography.hazmat.primitives import serialization as ser, hashes
+        from cryptography.hazmat.backends import default_backend
+        pk = ser.load_der_private_key(rsa_material()['priv'], None, default_backend())
+        valid = pk.public_key().encrypt(b'plain', apad.PKCS1v15())
+        valid_sig = pk.sign(b'msg', apad.PKCS1v15(), hashes.SHA256())
+    except Exception:
+        valid_sig = None
+    for u in (sym_pub, sym_priv):
+        for par in pars:
+            for n in lens:
+                out.append({'op': 'Encrypt', 'uid': u, 'params': par, 'iv': None, 'data': b'\x07' * n})
+            for n in (0, 1, k - 1, k, k + 1, 2 * k):
+                out.append({'op': 'Decrypt', 'uid': u, 'params': par, 'iv': None, 'data': bytes(rng.getrandbits(8) for _ in range(n))})
+                out.append({'op': 'Decrypt', 'uid': u, 'params': par, 'iv': None, 'data': b'\x00' * n})
+            if valid:
+                out.append({'op': 'Decrypt', 'uid': u, 'params': par, 'iv': None, 'data': valid})
+                out.append({'op': 'Decrypt', 'uid': u, 'params': par, 'iv': None, 'data': valid[:-1] + bytes([valid[-1] ^ 1])})
+    for u in (small_priv, priv):
+        for h in HASH:
+            for pd in (PAD.PSS, PAD.PKCS1v15):
+                for n in (0, 3, 10000):
+                    out.append({'op': 'Sign', 'uid': u, 'params': {'cryptographic_algorithm': ALG.RSA, 'hashing_algorithm': h, 'padding_method': pd},
+                                'data': b'm' * n})
+        for d in enums.DigitalSignatureAlgorithm:
+            out.append({'op': 'Sign', 'uid': u, 'params': {'digital_signature_algorithm': d, 'padding_method': PAD.PKCS1v15}, 'data': b'msg'})
+    for n in (0, 1, k - 1, k, k + 1, 2 * k):
+        for par in ({'cryptographic_algorithm': ALG.RSA, 'hashing_algorithm': HASH.SHA_256, 'padding_method': PAD.PKCS1v15},
+                    {'cryptographic_algorithm': ALG.RSA, 'hashing_algorithm': HASH.SHA_512, 'padding_method': PAD.PSS}):
+            out.append({'op': 'SignatureVerify', 'uid': pub, 'params': par, 'data': b'msg', 'signature': bytes(rng.getrandbits(8) for _ in range(n))})
+    if valid_sig:
+        for sig in (valid_sig, valid_sig[:-1] + bytes([valid_sig[-1] ^ 1])):
+            out.append({'op': 'SignatureVerify', 'uid': pub, 'params': {'cryptographic_algorithm': ALG.RSA, 'hashing_algorithm': HASH.SHA_256,
+                                                                         'padding_method': PAD.PKCS1v15}, 'data': b'msg', 'signature': sig})
+    return out
+
+
+DATE_NAMES = ['Initial Date', 'Activation Date', 'Process Start Date', 'Protect Stop Date', 'Deactivation Date', 'Destroy Date',
+              'Compromise Occurrence Date', 'Compromise Date', 'Archive Date', 'Last Change Date', 'Original Creation Date']
+DATE_EXTREMES = [0, 1, -1, 2 ** 31 - 1, 2 ** 31, -2 ** 31, 2 ** 32, 2 ** 62, -2 ** 62, 2 ** 63 - 1, -2 ** 63, 253402300800, -62135596801]
+INT_EXTREMES = [0, 1, -1, 2 ** 31 - 1, -2 ** 31]
+
+
+def extreme_menu(uid, ver):
+    """Every integer / date-time / interval valued request field at the extremes of its wire type."""
+    out = []
+    A, L, M = 'Cryptographic Algorithm', 'Cryptographic Length', 'Cryptographic Usage Mask'
+    for d in DATE_EXTREMES:
+        for n in DATE_NAMES:
+            out.append({'op': 'Locate', 'attrs': [{'name': n, 'val': d}]})
+        out.append({'op': 'Locate', 'attrs': [{'name': 'Initial Date', 'val': d}, {'name': 'Initial Date', 'val': 1600000000}]})
+        out.append({'op': 'Locate', 'attrs': [{'name': 'Initial Date', 'val': 1600000000}, {'name': 'Initial Date', 'val': d}]})
+        out.append({'op': 'Locate', 'attrs': [{'name': 'Initial Date', 'val': d}, {'name': 'Initial Date', 'val': max(-2 ** 63, min(2 ** 63 - 1, -d))}]})
+        out.append({'op': 'Locate', 'attrs': [{'name': 'State'}, {'name': 'Initial Date', 'val': d}]})
+        out.append({'op': 'Create', 'otype': 'SYMMETRIC_KEY', 'ta': tmpl(A, L, M, {'name': 'Activation Date', 'val': d})})
+        out.append({'op': 'Register', 'otype': 'SECRET_DATA', 'secret': {'type': 'SECRET_DATA'}, 'ta': tmpl({'name': 'Deactivation Date', 'val': d})})
+        if uid is not None:
+            out.append({'op': 'Revoke', 'uid': uid, 'code': 'CESSATION_OF_OPERATION', 'date': d})
+            if ver < (2, 0):
+                out.append({'op': 'ModifyAttribute1', 'uid': uid, 'attr': {'name': 'Activation Date', 'index': None, 'val': d}})
+            else:
+                out.append({'op': 'SetAttribute', 'uid': uid, 'attr': {'name': 'Activation Date', 'val': d}})
+                out.append({'op': 'ModifyAttribute2', 'uid': uid, 'attr': {'name': 'Deactivation Date', 'val': d}, 'current': {'name': 'Deactivation Date', 'val': d}})
+    for n in INT_EXTREMES:
+        for name in ('Cryptographic Length', 'Certificate Length'):
+            out.append({'op': 'Locate', 'attrs': [{'name': name, 'val': n}]})
+        out.append({'op': 'Locate', 'attrs': [], 'offset': n, 'maximum': n})
+        if uid is not None and ver < (2, 0):
+            out.append({'op': 'ModifyAttribute1', 'uid': uid, 'attr': {'name': 'Name', 'index': n}})
+            out.append({'op': 'DeleteAttribute1', 'uid': uid, 'name': 'Name', 'index': n})
+    for n in (0, 1, 2 ** 31, 2 ** 32 - 1):
+        out.append({'op': 'Locate', 'attrs': [{'name': 'Lease Time', 'val': n}]})
+        out.append({'op': 'Create', 'otype': 'SYMMETRIC_KEY', 'ta': tmpl(A, L, M, {'name': 'Lease Time', 'val': n})})
+    return out
+
+
 def _other_loc(n):
     return {'Name': kdrv.name_value('absent-name'), 'State': ST.DESTROYED, 'Object Type': OT.CERTIFICATE,
             'Cryptographic Usage Mask': [UM.EXPORT], 'Sensitive': False, 'Object Group': 'absent-group'}[n]
@@ -1227,7 +1336,12 @@ class Grid:
 
     def cell(self, drv, req, ver, store_obs, user='alice', desc=None, history=None):
         store_obs = with_access(drv, store_obs, user, req['op'])
-        obs = drv.run(mk_item(req), ver, user)
+        try:
+            item = mk_item(req)
+        except (ValueError, TypeError) as e:     # kmip.core itself refuses to build the request: it cannot arrive
+            self.ctx.count('unconstructible.%s' % req['op'])
+            return {'status': 'UNCONSTRUCTIBLE', 'reason': None, 'crash': None, 'crypto': [], 'warned': 0, 'message': str(e), 'encode': None}
+        obs = drv.run(item, ver, user)
         return self.record(req, ver, store_obs, obs, user, desc, history)
 
     def record(self, req, ver, store_obs, obs, user='alice', desc=None, history=None, coq_req=None, batch=None):
@@ -1385,7 +1499,8 @@ def run_aux(grid, ctx, ver, rng, sample):
         ua = [add_object(drv, obj_spec(t, 'Active', 'all', groups=1), 6) for t in ('SYMMETRIC_KEY', 'SECRET_DATA', 'PRIVATE_KEY')]
         store = observe_store(drv)
         tg = [(x, 'nomask') for x in us] + [(x, 'foreign') for x in ub] + [(x, 'emptyvalue') for x in ue] + \
-             [(None, 'noid'), (9999, 'unknownid'), ('abc', 'nonnumeric'), ('01', 'noncanonical')]
+             [(None, 'noid'), (9999, 'unknownid'), ('abc', 'nonnumeric'), ('01', 'noncanonical'),
+              (2 ** 63 - 1, 'hugeid'), (2 ** 63, 'hugeid'), (2 ** 64, 'hugeid'), (10 ** 30, 'hugeid'), (-1, 'negativeid')]
         for u, d in tg:
             menu = [r for r in target_menu(u, ver, wrap_uids=[us[0], ub[0], ua[0]]) if not (r['op'] in ('Activate', 'Revoke', 'Destroy') and d not in ('noid', 'foreign', 'unknownid'))]
             if sample is not None:
@@ -1405,7 +1520,7 @@ def run_aux(grid, ctx, ver, rng, sample):
             if obs['status'] == 'SUCCESS':
                 store = observe_store(drv)
         store = observe_store(drv)
-        for req in mask_menu(ua[0], ver):
+        for req in mask_menu(ua[0], ver) + extreme_menu(ua[1], ver):
             obs = grid.cell(drv, req, ver, store, desc='masks')
             if req['op'] in MUTATING and obs['status'] == 'SUCCESS':
                 # objects a cell created are destroyed again, so that the (large) store stays the same term
@@ -1448,8 +1563,11 @@ def run_sweep(grid, ctx, ver):
         sym = add_object(drv, obj_spec('SYMMETRIC_KEY', 'Active', 'all'), 1)
         priv = add_object(drv, obj_spec('PRIVATE_KEY', 'Active', 'all'), 2)
         pub = add_object(drv, obj_spec('PUBLIC_KEY', 'Active', 'all'), 3)
+        sym_pub = add_object(drv, obj_spec('SYMMETRIC_KEY', 'Active', 'all', value='rsa_pub'), 4)
+        sym_priv = add_object(drv, obj_spec('SYMMETRIC_KEY', 'Active', 'all', value='rsa_priv'), 5)
+        small = add_object(drv, obj_spec('PRIVATE_KEY', 'Active', 'all', value='small_priv'), 6)
         store = observe_store(drv)
-        for req in enum_sweep_menu(sym, priv, pub):
+        for req in asym_menu(sym_pub, sym_priv, small, priv, pub, ctx.subrng('asym')) + enum_sweep_menu(sym, priv, pub):
             obs = grid.cell(drv, req, ver, store, desc='sweep')
             if req['op'] in MUTATING and obs['status'] == 'SUCCESS':
                 store = observe_store(drv)
@@ -1699,6 +1817,11 @@ CORPUS = [
                                                                       'tag_length': 16}, 'iv': None, 'data': b'abc', 'tag': b'\x00' * 16}),
     ((1, 2), 'PRIVATE_KEY', 'Active', {'op': 'Sign', 'params': {'digital_signature_algorithm': enums.DigitalSignatureAlgorithm.ECDSA_WITH_SHA256,
                                                                   'padding_method': PAD.PSS}, 'data': b'msg'}),
+    ((1, 2), 'SYMMETRIC_KEY', 'Active', {'op': 'Encrypt', 'params': SYM_PARAMS[5], 'iv': b'\x01' * 16, 'data': b''}),
+    ((1, 4), 'SYMMETRIC_KEY', 'Active', {'op': 'Encrypt', 'params': {'cryptographic_algorithm': ALG.RC4}, 'iv': None, 'data': b''}),
+    ((1, 2), 'SYMMETRIC_KEY', 'Active', {'op': 'Decrypt', 'params': SYM_PARAMS[5], 'iv': b'\x01' * 16, 'data': b''}),
+    ((1, 2), 'SYMMETRIC_KEY', 'Active', {'op': 'Locate', 'attrs': [{'name': 'Initial Date', 'val': 2 ** 62}]}),
+    ((1, 2), 'SYMMETRIC_KEY', 'Active', {'op': 'Locate', 'attrs': [{'name': 'Initial Date', 'val': -2 ** 62}, {'name': 'Initial Date', 'val': 5}]}),
     # Register family (no stored target)
     ((1, 2), None, None, {'op': 'Register', 'otype': 'SYMMETRIC_KEY', 'secret': {'type': 'SYMMETRIC_KEY', 'missing': 'alg'}, 'ta': {'attrs': [], 'tnames': False}}),
     ((1, 4), None, None, {'op': 'Register', 'otype': 'PRIVATE_KEY', 'secret': {'type': 'PRIVATE_KEY', 'missing': 'value'}, 'ta': {'attrs': [], 'tnames': False}}),
@@ -1706,6 +1829,8 @@ CORPUS = [
     ((1, 0), None, None, {'op': 'Register', 'otype': 'SPLIT_KEY', 'secret': {'type': 'SPLIT_KEY', 'missing': 'value'}, 'ta': {'attrs': [], 'tnames': False}}),
     ((1, 2), None, None, {'op': 'Register', 'otype': 'SPLIT_KEY', 'secret': {'type': 'SPLIT_KEY', 'pfs': 2 ** 63}, 'ta': {'attrs': [], 'tnames': False}}),
     ((1, 2), None, None, {'op': 'Register', 'otype': 'SPLIT_KEY', 'secret': {'type': 'SPLIT_KEY', 'pfs': 2 ** 63 - 1}, 'ta': {'attrs': [], 'tnames': False}}),
+    ((1, 2), None, None, {'op': 'Get', 'uid': 2 ** 63}),
+    ((2, 0), None, None, {'op': 'Destroy', 'uid': 10 ** 30}),
 ]
 
 
